@@ -26,6 +26,12 @@ Streams (model `Wpull.Decomp` vs the real code of the checkout under test):
            timeout taken from --session-timeout through the real argument
            parser and FetchRule (None, 0.5, 5, 30 s) x codings x framings x
            file kept / None x truncated / corrupt; same oracle
+  overrun  (family of e2e) Content-Length framing with a server that sends
+           1..700 bytes more than declared, body sizes around and above the
+           4096 read size, random cut sets; the raw reads of the connection's
+           asyncio.StreamReader are logged, the model's `lengthPieces` must
+           produce the pieces the decoder got; oracle: the bytes handed on =
+           one-shot decoding of exactly the first Content-Length bytes
   bomb     (family of body/e2e) 150 kB - 1 MB of zeros / repetitive text /
            repeated random words, cut so that a NON-final piece of 100 / 1460 /
            4096 bytes inflates to far more than 64 KiB
@@ -65,6 +71,7 @@ RULE = ('payloads (empty / tiny / text / random / runs, 0..70 kB) x compression 
         'e2e: framing (close, length, chunked, bad length, ignore_length) x body kept / discarded (file=None) / raw; '
         'seq: all 36 ordered pairs of codings (x3) + random triples through one Stream object, function level and over one connection; '
         'web: WebClient/WebSession fetch x session timeout (None, 0.5, 5, 30) x codings x framings x file kept/None; '
+        'overrun: Content-Length framing x 1..700 surplus bytes x body sizes 1..20000 (around 4096 / 8192) x cut sets; '
         'bomb: highly compressible 150 kB-1 MB payloads where a non-final piece inflates past 64 KiB; '
         'non-trivial = a decoder object is selected and the body is not empty; distinct by (coding, body, pieces, level)')
 TRUSTED = ['zlib (zlib.decompressobj): opaque streaming inflater; its chunking invariance (same total output, eof flag and '
@@ -593,7 +600,7 @@ def chunked_frame(rng, body):
     return wire, regions
 
 
-def real_e2e(header_value, strategy, wire_body, cuts, regions, filemode='keep'):
+def real_e2e(header_value, strategy, wire_body, cuts, regions, filemode='keep', declared=None, reads=None):
     """Real Stream.read_response + read_body.  -> (res, pieces seen by the decoder, log, odd)
     strategy: close | length | chunked | badlength (unparseable Content-Length -> until close) |
               ignorelen (Stream(ignore_length=True) with a Content-Length -> until close)
@@ -606,6 +613,9 @@ def real_e2e(header_value, strategy, wire_body, cuts, regions, filemode='keep'):
         head += b'Content-Encoding: ' + header_value.encode('latin-1') + b'\r\n'
     if strategy in ('length', 'ignorelen'):
         head += b'Content-Length: %d\r\n' % len(wire_body)
+    elif strategy == 'overrun':
+        # the server sends more than it declared (`declared` bytes of body, then surplus)
+        head += b'Content-Length: %d\r\n' % declared
     elif strategy == 'badlength':
         head += b'Content-Length: 1x2\r\n'
     elif strategy == 'chunked':
@@ -621,11 +631,22 @@ def real_e2e(header_value, strategy, wire_body, cuts, regions, filemode='keep'):
             conn = Connection(('10.0.0.1', 80), 'h')
             await compat._ensure(conn.connect())
             fc = net.conns[-1]
+            if reads is not None:
+                # log what each read() of the (stdlib) asyncio.StreamReader returns: the raw reads of the body
+                orig_read = fc.reader.read
+
+                async def logged_read(n=-1):
+                    d = await orig_read(n)
+                    reads.append(bytes(d))
+                    return d
+                fc.reader.read = logged_read
             stream = Stream(conn, keep_alive=True, ignore_length=(strategy == 'ignorelen'))
             request = Request('http://h/')
 
             async def client():
                 response = await compat._ensure(stream.read_response())
+                if reads is not None:
+                    del reads[:]
                 stream.data_event_dispatcher.add_read_listener(lambda d: seen.append(bytes(d)))
                 await compat._ensure(stream.read_body(request, response,
                                                       file=None if filemode == 'none' else out,
@@ -664,18 +685,38 @@ def real_e2e(header_value, strategy, wire_body, cuts, regions, filemode='keep'):
 def stream_e2e(ctx, cases):
     """cases: (coding, header_value, body, strategy, meta, seed[, filemode])"""
     rows = []
+    lens_reads = []     # (declared length, raw reads, pieces the decoder got) of the over-sending runs
     for case_t in cases:
         (coding, header_value, body, strategy, meta, seed) = case_t[:6]
         filemode = case_t[6] if len(case_t) > 6 else 'keep'
         rng = ctx.subrng('e2e/%s' % seed)
+        reads = None
         if strategy == 'chunked':
             wire, regions = chunked_frame(rng, body)
+        elif strategy == 'overrun':
+            k = rng.choice([1, 2, 17, 700]) if rng.random() < 0.5 else rng.randrange(1, 701)
+            surplus = rng.choice([bytes(rng.randrange(256) for _ in range(k)), (b'HTTP/1.1 200 OK\r\n\r\n' * 40)[:k], b'X' * k])
+            wire, regions, reads = body + surplus, None, []
         else:
             wire, regions = body, None
         cuts = fakenet.random_cuts(rng, len(wire), rng.choice(['none', 'one', 'few', 'many', 'bytes'] if len(wire) < 400
-                                                               else ['none', 'one', 'few']))
-        res, pieces, log, odd = real_e2e(header_value, strategy, wire, cuts, regions, filemode)
+                                                               else ['none', 'one', 'few', 'few']))
+        if strategy == 'overrun' and len(body) > 1 and rng.random() < 0.5:
+            # make sure the body itself arrives in at least two reads and the last one carries surplus
+            cuts = sorted(set(cuts) | {rng.randrange(1, len(body))})
+            cuts = [c for c in cuts if c <= len(body) - 1 or c >= len(body) + 1]
+        res, pieces, log, odd = real_e2e(header_value, strategy, wire, cuts, regions, filemode,
+                                         declared=len(body), reads=reads)
+        if reads is not None:
+            meta = dict(meta, reads=[len(r) for r in reads], surplus=len(wire) - len(body))
+            lens_reads.append((len(body), [r for r in reads], pieces))
         rows.append((coding, header_value, body, strategy, meta, seed, res, pieces, log, odd, filemode, wire))
+    # Content-Length framing: the model's `lengthPieces declared reads` must be the pieces the decoder got
+    lp = ctx.model.ask(['decomp lenpieces %d %s' % (n, enc_pieces(rd)) for (n, rd, _p) in lens_reads])
+    for (n, rd, pcs), rep in zip(lens_reads, lp):
+        ctx.tag('overrun:reads=%s' % ('1' if len([r for r in rd if r]) <= 1 else '2+'))
+        if rep != enc_pieces(pcs):
+            ctx.disagree('lenpieces', {'stream': 'lenpieces', 'declared': n, 'reads': rd}, rep[:300], enc_pieces(pcs)[:300])
     # raw=True: no decoder is set up, the model is the identity coding
     reps = ctx.model.ask(['decomp body %s %s %s' % ('i' if r[10] == 'raw' else r[0], enc_pieces(r[7]), enc_log(r[8])) for r in rows])
     for (coding, header_value, body, strategy, meta, seed, res, pieces, log, odd, filemode, wire), rep in zip(rows, reps):
@@ -687,7 +728,13 @@ def stream_e2e(ctx, cases):
         if res[0] == 'stalled':
             ctx.disagree('e2e', case, 'completes', 'stalled')
             continue
-        if (b''.join(pieces) != body) if res[0] == 'ok' else (not body.startswith(b''.join(pieces))):
+        if strategy == 'overrun':
+            # the property on the real output: what is handed on is exactly the first Content-Length bytes
+            if res[0] == 'ok' and b''.join(pieces) != body:
+                ctx.fail('overrun-delivered', 'read_body_by_length', case,
+                         'Content-Length %d, reads %s: %d bytes were handed to the decoder (surplus of an over-sending server)'
+                         % (len(body), meta.get('reads'), len(b''.join(pieces))))
+        elif (b''.join(pieces) != body) if res[0] == 'ok' else (not body.startswith(b''.join(pieces))):
             raise Infra('e2e harness: the pieces observed (%d bytes) are not the body (%d bytes)' % (len(b''.join(pieces)), len(body)))
         # model: same result class / content, whole log consumed (per-piece outputs are not observable through the file)
         rp = rep.split(' ')
@@ -705,7 +752,7 @@ def stream_e2e(ctx, cases):
             ctx.disagree('e2e-zlib-api', case, 'plain calls', odd[0])
         monitor_zlib(ctx, log, case)
         if filemode == 'raw':
-            want = ('ok', wire if strategy == 'chunked' else body)
+            want = ('ok', wire if strategy == 'chunked' else body)      # (overrun: the declared bytes only)
             if res != want:
                 ctx.fail('raw-not-passthrough', 'read_body_raw', case,
                          'raw=True must hand the undecoded bytes through: %s' % fmt_res(res)[:160])
@@ -1077,6 +1124,30 @@ def family_seq(ctx, rng, n_random):
     stream_e2e_seq(ctx, e2e, ctx.seed)
 
 
+# ------------------------------------------------------------------ over-sending server under Content-Length framing
+def family_overrun(ctx, rng, n):
+    """Content-Length framing, the server sends 1..700 bytes more than declared, body sizes around and above
+    the 4096 read size, random cut sets: the bytes handed on are one-shot decoding of exactly the declared bytes."""
+    cases = []
+    for i in range(n):
+        kind = ['none', 'plain-as-gzip', 'identity', 'gzip', 'zlib', 'raw', 'none', 'plain-as-gzip'][i % 8]
+        size = rng.choice([1, 5, 300, 4000, 4095, 4096, 4097, 4200, 8191, 8192, 8193, 10000, 20000])
+        if kind == 'plain-as-gzip':
+            hdr, fmt, coding = 'gzip', 'plain', 'g'
+        else:
+            hdr, fmt, coding = SEQ_KINDS[kind]
+        if fmt == 'plain':
+            body = bytes([rng.choice(b'abcxyz<>')]) + gen_payload(rng, size - 1) if size > 1 else b'a'
+            desc = 'plain'
+        else:
+            # incompressible payload so that the compressed body is about `size` bytes too
+            body, desc = make_body(rng, fmt, bytes(rng.randrange(256) for _ in range(size)))
+        meta = {'fmt': fmt, 'enc': desc, 'mut': 'valid'}
+        for fm in ('keep', 'none') if i % 3 else ('keep', 'raw'):
+            cases.append((coding, hdr, body, 'overrun', meta, 'overrun/%d/%d' % (ctx.seed, i), fm))
+    stream_e2e(ctx, cases)
+
+
 # ------------------------------------------------------------------ highly compressible bodies (one piece inflates past 64 KiB)
 def gen_compressible(rng, size, kind):
     if kind == 'zeros':
@@ -1373,6 +1444,7 @@ def run(ctx):
     family_e2e(ctx, rng, ctx.scale(200, 4000))
     family_seq(ctx, rng, ctx.scale(60, 1500))
     family_web(ctx, rng, ctx.scale(60, 1200))
+    family_overrun(ctx, rng, ctx.scale(80, 1600))
     family_bomb(ctx, rng, batch, ctx.scale(6, 20), 400000 if not thorough else 1000000)
 
 
@@ -1386,4 +1458,5 @@ def search(ctx):
     family_e2e(ctx, rng, ctx.scale(10, 30))
     family_seq(ctx, rng, ctx.scale(5, 10))
     family_web(ctx, rng, ctx.scale(5, 10))
+    family_overrun(ctx, rng, ctx.scale(5, 10))
     family_bomb(ctx, rng, batch, max(4, ctx.scale(1, 1) // 2), 600000)
